@@ -801,3 +801,80 @@ Qed.
 Lemma name_exp_second n g i t r0 s' mx : g_exp n g ((i, t) :: r0) = Some s' -> kmatch (kd t) (PClass CName) = true ->
   follow (anyof [psym ","%bs; psym ";"%bs; psym "}"%bs]) mx s' -> follow (nomatch [psym "="%bs]) mx r0.
 Proof. intros H Hk Hf. apply g_exp_items in H. destruct H as (m & H). eapply name_second; eassumption. Qed.
+
+(* ------------------------------------------------------------------ first token of a statement *)
+Lemma starts_paren_wraps : forall l base, starts_paren (wraps base l) = starts_paren base.
+Proof.
+  induction l as [|[n [[[[tag a] b] sh] rest]] l IH]; intros base; [reflexivity|]. cbn [wraps]. rewrite IH. reflexivity.
+Qed.
+
+Lemma g_prefix_head_sp n g s s' : g_prefix n g s = Some s' ->
+  hd_in (if starts_paren g then [psym "("%bs] else [PClass CName]) s.
+Proof.
+  intros H. apply spine in H. destruct H as (nb & base & l & s0 & -> & Hb & _). rewrite starts_paren_wraps.
+  unfold g_base in Hb. destruct base; try discriminate.
+  - gmatch Hb. destruct (tag =? tVarName); [|discriminate]. apply tokc_inv in Hb.
+    destruct Hb as (j & u0 & u & -> & -> & Hk). cbn [starts_paren]. exists j, u, s0. split; [reflexivity|].
+    unfold anyof. cbn [existsb]. rewrite Hk. reflexivity.
+  - cbn [starts_paren]. hd_first Hb.
+Qed.
+
+Definition stat_first_nodo : list pat :=
+  [PClass CName; PClass CLabel; pkw "while"%bs; pkw "repeat"%bs; pkw "if"%bs; pkw "for"%bs;
+   pkw "function"%bs; pkw "local"%bs; pkw "goto"%bs; pkw "break"%bs].
+Definition stat_first_np : list pat := pkw "do"%bs :: stat_first_nodo.
+
+Ltac eval_cond :=
+  repeat match goal with
+         | |- hd_in (if ?c then _ else _) _ =>
+             let v := eval vm_compute in c in
+             lazymatch v with true => idtac | false => idtac end;
+             change c with v; cbv iota
+         end.
+
+Lemma g_stat_head n g s s' : g_stat n g s = Some s' ->
+  hd_in (if starts_paren g then [psym "("%bs] else if is_tag g tStatDo then [pkw "do"%bs] else stat_first_nodo) s.
+Proof.
+  destruct n; [discriminate|]. cbn [g_stat]. destruct g as [tag a b sh fs| | | | | | | |]; try discriminate.
+  Ltac kwfirst H :=
+    try match type of H with
+        | obind (kw _ ?x _) _ = _ => is_var x; destruct x; try discriminate H
+        | kw _ ?x _ = _ => is_var x; destruct x; try discriminate H
+        end.
+  Ltac kwcase H := intros H; gmatch H; kwfirst H; eval_cond; hd_first H.
+  destruct (tag =? tStatAssignment) eqn:E1; [apply Z.eqb_eq in E1; subst tag|].
+  { intros H. gmatch H. gtag H tVarList. apply obind_some in H. destruct H as (s1 & H & _).
+    destruct l as [|v r]; [discriminate|]. cbn [sep_list] in H. apply obind_some in H. destruct H as (s2 & H & _).
+    destruct n; [discriminate|]. cbn [g_var] in H.
+    destruct (is_tag v tVarName || is_tag v tVarIndex || is_tag v tVarAttribute); [|discriminate].
+    apply g_prefix_head_sp in H. cbn [starts_paren]. destruct (starts_paren v); [exact H|]. eval_cond.
+    eapply hd_sub; [|exact H]. vm_compute. reflexivity. }
+  destruct (tag =? tStatFunctionCall) eqn:E2; [apply Z.eqb_eq in E2; subst tag|].
+  { intros H. gmatch H. match type of H with (if ?c then _ else _) = _ => destruct c; [|discriminate] end.
+    apply g_prefix_head_sp in H. cbn [starts_paren]. destruct (starts_paren t); [exact H|]. eval_cond.
+    eapply hd_sub; [|exact H]. vm_compute. reflexivity. }
+  destruct (tag =? tStatDo) eqn:E3; [apply Z.eqb_eq in E3; subst tag|]. { kwcase H. }
+  destruct (tag =? tStatWhile) eqn:E4; [apply Z.eqb_eq in E4; subst tag|]. { kwcase H. }
+  destruct (tag =? tStatRepeat) eqn:E5; [apply Z.eqb_eq in E5; subst tag|]. { kwcase H. }
+  destruct (tag =? tStatIf) eqn:E6; [apply Z.eqb_eq in E6; subst tag|].
+  { destruct sh; kwcase H. }
+  destruct (tag =? tStatForStep) eqn:E7; [apply Z.eqb_eq in E7; subst tag|]. { kwcase H. }
+  destruct (tag =? tStatForIn) eqn:E8; [apply Z.eqb_eq in E8; subst tag|]. { kwcase H. }
+  destruct (tag =? tStatFunction) eqn:E9; [apply Z.eqb_eq in E9; subst tag|].
+  { intros H; gmatch H; gtag H tFunctionName; kwfirst H; eval_cond; hd_first H. }
+  destruct (tag =? tStatLocalFunction) eqn:E10; [apply Z.eqb_eq in E10; subst tag|]. { kwcase H. }
+  destruct (tag =? tStatLocalAssignment) eqn:E11; [apply Z.eqb_eq in E11; subst tag|]. { kwcase H. }
+  destruct (tag =? tStatGoto) eqn:E12; [apply Z.eqb_eq in E12; subst tag|]. { kwcase H. }
+  destruct (tag =? tStatLabel) eqn:E13; [apply Z.eqb_eq in E13; subst tag|]. { kwcase H. }
+  destruct (tag =? tStatBreak) eqn:E14; [apply Z.eqb_eq in E14; subst tag|discriminate]. kwcase H.
+Qed.
+
+Lemma g_stat_head_np n g s s' : g_stat n g s = Some s' -> starts_paren g = false -> hd_in stat_first_np s.
+Proof.
+  intros H Hs. apply g_stat_head in H. rewrite Hs in H. destruct (is_tag g tStatDo);
+    (eapply hd_sub; [|exact H]; vm_compute; reflexivity).
+Qed.
+
+Lemma g_stat_head_nodo n g s s' : g_stat n g s = Some s' -> starts_paren g = false -> is_tag g tStatDo = false ->
+  hd_in stat_first_nodo s.
+Proof. intros H Hs Hd. apply g_stat_head in H. rewrite Hs, Hd in H. exact H. Qed.
